@@ -384,9 +384,12 @@ class CallMixin:
                 if ty.kind in ('strid', 'optstrid') and isinstance(v, VOpaque) and v.tag == 'const' and isinstance(v.py, str):
                     v = VInt(self.intern(v.py))
                     v.strid = True
+                if ty.kind == 'optdata' and isinstance(v, (VNone, VInt, VOptInt)):
+                    v = coerce(v, VOptInt(True, 0))
+                    v.data = True
                 if ty.kind in ('optint', 'optstrid') and isinstance(v, (VNone, VInt)):
                     v = coerce(v, VOptInt(True, 0))
-                if ty.kind in ('optint', 'optstrid') and isinstance(v, (VSeq, VView, VTuple)):
+                if ty.kind in ('optint', 'optstrid', 'optdata') and isinstance(v, (VSeq, VView, VTuple)):
                     # a compound data value passed where the contract identifies data by an id: an unconstrained id
                     v = VOptInt(False, self.fresh_int('dataid'))
                 if ty.kind == 'ref' and isinstance(v, VRef):
@@ -723,6 +726,8 @@ class CallMixin:
             return args[0]
         if name in ('str', 'repr'):
             return VOpaque(None, 'str')
+        if name == 'type' and len(args) == 1:
+            return VOpaque(None, 'type')
         if name == 'id':
             if isinstance(args[0], VRef):
                 return VInt(args[0].z)
